@@ -645,7 +645,7 @@ pub fn run(tier: Tier, seed: u64) -> i32 {
             let hist = if i == 1 {
                 long_history(&start, &mut rng, long_cycles).unwrap_or_else(|| rich_history(&start, &mut rng, 400))
             } else if i == 2 && j % 8 == 0 {
-                match wide_history(&start, &mut rng, wide_distinct, 2 + (j / 64) % 2, &h) {
+                match std::panic::catch_unwind(std::panic::AssertUnwindSafe(|| wide_history(&start, &mut rng, wide_distinct, 2 + (j / 64) % 2, &h))).ok().flatten() {
                     Some(hh) => {
                         acc.feature("game_with_1000_or_more_distinct_positions");
                         acc.max("max_distinct_positions_in_a_game", wide_distinct as u64);
